@@ -218,6 +218,20 @@ def run_scenario(sc, observe="all"):
                 u = self.seen[mi]
                 self.seen[mi] += 1
                 self._snapshot("book", market, market_book)
+                if self.spec.get("read_exposure"):
+                    # a strategy that looks at its own position on every runner at every update (what most strategies do): the figures are
+                    # recorded next to the order snapshot taken at the same instant
+                    c2 = lambda x: int(round(x * 100))
+                    ex = {}
+                    for r in market_book.runners:
+                        lk = (market.market_id, r.selection_id, r.handicap)
+                        e = market.blotter.get_exposures(self, lk)
+                        ex["%s/%s" % (r.selection_id, r.handicap)] = [c2(e[k]) for k in ("matched_profit_if_win", "matched_profit_if_lose", "worst_potential_unmatched_profit_if_win",
+                                                                                          "worst_potential_unmatched_profit_if_lose", "worst_possible_profit_on_win", "worst_possible_profit_on_lose")] + \
+                                                                     [c2(market.blotter.selection_exposure(self, lk))]
+                    if rec.obs and rec.obs[-1].get("cb") == "book" and rec.obs[-1].get("s") == self.idx:
+                        rec.obs[-1]["expo"] = ex
+                        rec.obs[-1]["mkt_expo"] = [c2(market.blotter.market_exposure(self, market_book)), market_book.number_of_active_runners, market_book.number_of_winners]
                 self._inject("book", market)
                 acts = script.get((self.idx, mi, u), [])
                 txn = None
@@ -307,6 +321,10 @@ def run_scenario(sc, observe="all"):
                     rec.requests.append([self.idx, mi, u, a[0], a[1] if len(a) > 1 else None, res, extra])
                 if txn is not None:
                     txn.__exit__(None, None, None)
+                if self.spec.get("read_exposure"):
+                    # ... and looks at its position again after it has sent its requests (orders just placed are still pending here)
+                    for r in market_book.runners:
+                        market.blotter.get_exposures(self, (market.market_id, r.selection_id, r.handicap))
 
             def process_orders(self, market, orders):
                 self._inject("orders", market)
